@@ -13,8 +13,21 @@ impl  = the real library: LocationLists / RangeLists constructed directly over B
 spec  = Spec/C07Lists.v, Spec/C07Sections.v: the list sections are produced by the Coq encoders and the
         expected entries by the Coq meaning functions;  model = Model/C07Lists.v over Gen/C07Tables.v."""
 import io
+import random
 from tools.lib.framework import impl_call
+from tools.lib import streams as ST
 from tools.harness import c07_build as B
+
+_STREAMS = None      # one tools/lib/streams.Streams per evaluate() call
+
+
+def _open(data, kind='bytesio'):
+    return io.BytesIO(data) if _STREAMS is None else _STREAMS.open(data, kind)
+
+
+def _drop():
+    if _STREAMS is not None:
+        _STREAMS.drop_files()
 
 CLAIMED = True
 CONFIG = {'assumptions': [
@@ -34,6 +47,8 @@ CONFIG = {'assumptions': [
     'enumerated section between two yields (Model/C07Session.v op_in_domain); a consumer that fetches lists of '
     '.debug_loclists between two yields of the v5 iter_location_lists, or of .debug_rnglists between two yields of '
     'iter_CU_range_lists_ex, moves the stream the generator reads from: those sessions are compared with the model only',
+    'split: the list sections of the file that holds the lists are the same bytes as those of the unit\'s file (only the '
+    '.debug_addr differs or is absent); enumerations scan the section object\'s own DWARFInfo and are not observed across files',
     'classification: in domain exactly where the DWARF 2-5 attribute/form class tables give the combination a unique '
     'reading (Spec/C07Lists.v std_classify); DW_AT_data_member_location with data4/data8 in DWARF 3 is ambiguous']}
 LEVEL = {'text': 'Machine-checked: round trip of .debug_loc/.debug_ranges lists (base-selection entries, any expression '
@@ -65,6 +80,11 @@ RULE = ('cases: list4/list5 = one list from the Coq encoder (address size 4/8 x 
         '(loclistx/rnglistx) designate the 2nd.. entry of another list, in all four section kinds; long = pre-v5 '
         'lists of 129/130/257/1000 entries (quick: one size per address size x byte order); indirect = 30 files + 30 '
         'sessions where about half of the attributes are declared DW_FORM_indirect and carry the real form in the DIE; '
+        'split = 40 files whose v5 lists are fetched (parse_from_attribute, get_range_list_at_offset, translate_v5_entry) from '
+        'the LocationLists/RangeLists of ANOTHER DWARFInfo (same list sections, .debug_addr absent or with other addresses) '
+        'with the units/DIEs of this one; stream kind = every section of every file/session/split/list case is handed to '
+        'the library as a stream of a kind drawn from tools/lib/streams.py (bytesio, file, file_warm, file_end, file_small, '
+        'mmap, gzip, decoy_fd), list sections and the other sections independently; '
         'collide = 25 files + 25 sessions with both generations where a pre-v5 and a v5 unit designate numerically equal '
         'offsets in .debug_ranges/.debug_rnglists and .debug_loc/.debug_loclists; malformed = truncations and unknown kinds (model vs '
         'implementation only). distinct = hash(kind, abstract); non-trivial = at least one list entry or one '
@@ -499,7 +519,7 @@ def gen_script(rng, a, focus=False):
          | ['cu_ex', unit block index, sched]
        simple = ['parse', unit, n DIEs] | ['fetch', unit, die, attribute name] | ['get_ex', unit block, list]
        sched = [[simple...] after yield 0, [simple...] after yield 1, ...]"""
-    le, asz, loc4, rng4, tables, loc5, rng5, cus = a
+    le, asz, loc4, rng4, tables, loc5, rng5, cus = a[:8]
     ncu = len(cus)
     fetchables = [[k, d, at[1]] for k, cu in enumerate(cus) for d, attrs in enumerate(cu[3]) for at in attrs
                   if at[0] in ('ref', 'sub')]
@@ -653,10 +673,26 @@ def gen(ctx):
             ents = gen_v4loc(rng, asz, n)
             ents = [['loc', e[1], e[2], e[3][:6]] if e[0] == 'loc' else e for e in ents]
             cases.append(('list4', ['loc', le, asz, _bytes(rng, rng.choice([0, 5, 16])), ents, _bytes(rng, 3)]))
+    # ---- split DWARF: the lists are fetched from ANOTHER DWARFInfo's section objects with the units of this one
+    for size, n in ((0, 15 * T), (1, 25 * T)):
+        for _ in range(n):
+            cases.append(('split', gen_file(rng, size, indexed=True, overlap=rng.random() < 0.2)[1]))
     # ---- classification: every name x version, all forms in one case
     for v in (2, 3, 4, 5):
         cases.append(('classify', [v]))
-    return cases
+    # ---- the kind of stream every section is handed to the library as (tools/lib/streams.py); drawn last, from
+    # its own generator, so that the cases themselves do not depend on it
+    krng = random.Random(rng.getrandbits(64))
+    out = []
+    for kind, a in cases:
+        if kind in ('file', 'split'):
+            a = list(a) + [[ST.draw_kind(krng, 0.5), ST.draw_kind(krng, 0.8)]]
+        elif kind == 'session':
+            a = [list(a[0]) + [[ST.draw_kind(krng, 0.5), ST.draw_kind(krng, 0.8)]], a[1]]
+        elif kind in ('list4', 'list5'):
+            a = list(a) + [ST.draw_kind(krng, 0.7)]
+        out.append((kind, a))
+    return out
 
 
 # ------------------------------------------------------------------ canonical views of implementation objects
@@ -701,6 +737,16 @@ def _structs(le, asz):
 
 # ------------------------------------------------------------------ evaluation
 def evaluate(ctx, cases):
+    global _STREAMS
+    _STREAMS = ST.Streams(prefix='pv-c07-streams-')
+    try:
+        _evaluate(ctx, cases)
+    finally:
+        _STREAMS.close()
+        _STREAMS = None
+
+
+def _evaluate(ctx, cases):
     by = {}
     for i, (kind, a) in enumerate(cases):
         by.setdefault(kind, []).append((i, a))
@@ -711,6 +757,8 @@ def evaluate(ctx, cases):
         _eval_files(ctx, [a for _, a in by['file']])
     if 'session' in by:
         _eval_sessions(ctx, [a for _, a in by['session']])
+    if 'split' in by:
+        _eval_split(ctx, [a for _, a in by['split']])
     if 'classify' in by:
         _eval_classify(ctx, [a for _, a in by['classify']])
 
@@ -758,14 +806,17 @@ def _eval_lists(ctx, kind, cases):
         which, le, asz, data, off, ents = w
         model, wf, mean = ans[3 * i], ans[3 * i + 1], ans[3 * i + 2]
         st = _structs(le, asz)
+        skind = a[6] if not bad and len(a) > 6 else 'bytesio'
+        ctx.bump('stream_kind', skind)
         if which == 'loc':
-            obj = LocationLists(io.BytesIO(data), st, 5 if v5 else 4, None)
+            obj = LocationLists(_open(data, skind), st, 5 if v5 else 4, None)
             die = types.SimpleNamespace(cu=None) if v5 else None
             impl = c_tups(impl_call(obj.get_location_list_at_offset, off, die))
         else:
-            obj = RangeLists(io.BytesIO(data), st, 5 if v5 else 4, None)
+            obj = RangeLists(_open(data, skind), st, 5 if v5 else 4, None)
             impl = c_tups(impl_call(obj.get_range_list_at_offset, off, None))
         spec = ['ok', mean]
+        _drop()
         ctx.bump('kind', kind + '-' + which)
         ctx.bump('entries', min(len(ents), 8))
         ctx.record(kind, a, impl=impl, spec=spec if not bad else model, model=model,
@@ -779,7 +830,7 @@ def _file_plan(drv, cases):
     reqs = []
     slots = []
     for a in cases:
-        le, asz, loc4, rng4, tables, loc5, rng5, cus = a
+        le, asz, loc4, rng4, tables, loc5, rng5, cus = a[:8]
         s = {}
         if loc4 is not None:
             s['loc4'] = len(reqs)
@@ -828,6 +879,9 @@ def _eval_files(ctx, cases):
     ans4 = drv.batch(reqs4)
     for a, f in zip(cases, files):
         impl = _observe_impl(f)
+        _drop()
+        for k_ in f['kinds']:
+            ctx.bump('stream_kind', k_)
         spec, model = _collect(f, ans, ans4)
         key = 'file/ok'
         for (lab, iv), (_, sv) in zip(impl, spec):
@@ -843,8 +897,9 @@ def _eval_files(ctx, cases):
 
 def _assemble(a, s, built):
     """section bytes, positions of every list item, DIE attribute values, the abstract views for the model"""
-    le, asz, loc4, rng4, tables, loc5, rng5, cus = a
-    f = {'le': le, 'asz': asz, 'a': a, 'wf': True, 'bytes': {}, 'nontrivial': []}
+    le, asz, loc4, rng4, tables, loc5, rng5, cus = a[:8]
+    f = {'le': le, 'asz': asz, 'a': a, 'wf': True, 'bytes': {}, 'nontrivial': [],
+         'kinds': tuple(a[8]) if len(a) > 8 else ('bytesio', 'bytesio')}
     # .debug_addr: every table after its own prefix
     addr = b''
     bases = []
@@ -1149,7 +1204,8 @@ def _observe_impl(f):
     info, abbrev, cu_offs = B.build_info(le, [{'version': c['version'], 'is64': c['is64'], 'asz': c['asz'], 'dies': c['bdies']}
                                               for c in f['cus']])
     di = B.make_dwarfinfo(le, asz, dict(info=info, abbrev=abbrev, loc=f['bytes']['loc'], ranges=f['bytes']['ranges'],
-                                        loclists=f['bytes']['loclists'], rnglists=f['bytes']['rnglists'], addr=f['bytes']['addr']))
+                                        loclists=f['bytes']['loclists'], rnglists=f['bytes']['rnglists'], addr=f['bytes']['addr']),
+                          opener=_open, kinds=f['kinds'])
     out = []
 
     def obj_view(o, single, pair):
@@ -1199,13 +1255,13 @@ def _observe_impl(f):
                     out.append(('classify:%s:%s:%d' % (name, form, ver), v))
     for gen_, lkey, rkey, lsec, rsec in ((4, 'loc4', 'rng4', 'loc', 'ranges'), (5, 'loc5', 'rng5', 'loclists', 'rnglists')):
         if f[lkey] is not None:
-            o = ll if isinstance(ll, LocationLists) else LocationLists(io.BytesIO(f['bytes'][lsec]), di.structs, gen_, di)
+            o = ll if isinstance(ll, LocationLists) else LocationLists(_open(f['bytes'][lsec], f['kinds'][0]), di.structs, gen_, di)
             out.append(('iter_location_lists', _iter_view(lambda: list(o.iter_location_lists()))))
         if f[rkey] is not None:
-            o = rl if isinstance(rl, RangeLists) else RangeLists(io.BytesIO(f['bytes'][rsec]), di.structs, gen_, di)
+            o = rl if isinstance(rl, RangeLists) else RangeLists(_open(f['bytes'][rsec], f['kinds'][0]), di.structs, gen_, di)
             out.append(('iter_range_lists', _iter_view(lambda: list(o.iter_range_lists()))))
     if f['loc5'] is not None:
-        o = ll if isinstance(ll, LocationLists) else LocationLists(io.BytesIO(f['bytes']['loclists']), di.structs, 5, di)
+        o = ll if isinstance(ll, LocationLists) else LocationLists(_open(f['bytes']['loclists'], f['kinds'][0]), di.structs, 5, di)
         r = impl_call(lambda: list(o.iter_CUs()))
         out.append(('LocationLists.iter_CUs', r if _is_err(r) else _ok([c_container(h) for h in r])))
     tr = {}
@@ -1273,6 +1329,9 @@ def _eval_sessions(ctx, cases):
         ok_script = bool(ans[w['model'] + 1])
         spec = [e for emit in w['emit'] for e in emit(ans)]
         impl = _impl_session(f, script)
+        _drop()
+        for k_ in f['kinds']:
+            ctx.bump('stream_kind', k_)
         key = 'session/ok'
         for i in range(max(len(impl), len(spec))):
             iv = impl[i] if i < len(impl) else None
@@ -1369,7 +1428,8 @@ def _impl_session(f, script):
     info, abbrev, cu_offs = B.build_info(le, [{'version': c['version'], 'is64': c['is64'], 'asz': c['asz'], 'dies': c['bdies']}
                                               for c in f['cus']])
     di = B.make_dwarfinfo(le, asz, dict(info=info, abbrev=abbrev, loc=f['bytes']['loc'], ranges=f['bytes']['ranges'],
-                                        loclists=f['bytes']['loclists'], rnglists=f['bytes']['rnglists'], addr=f['bytes']['addr']))
+                                        loclists=f['bytes']['loclists'], rnglists=f['bytes']['rnglists'], addr=f['bytes']['addr']),
+                          opener=_open, kinds=f['kinds'])
     st = {}
 
     def setup():
@@ -1449,6 +1509,103 @@ def _impl_session(f, script):
             break
         events += r
     return events
+
+
+# ---- split DWARF
+def _eval_split(ctx, cases):
+    """the unit (and its DIEs, its .debug_addr) live in one DWARFInfo, the LocationLists/RangeLists objects come from
+    another DWARFInfo over the same list sections whose .debug_addr is absent or holds other addresses: indexed
+    entries must be resolved through the address table of the UNIT that is passed"""
+    from elftools.dwarf.locationlists import LocationParser
+    drv = ctx.driver
+    reqs, slots = _file_plan(drv, cases)
+    built = drv.batch(reqs)
+    files = []
+    reqs2 = []
+    for a, s in zip(cases, slots):
+        f = _assemble(a, s, built)
+        f['attr_slot'] = len(reqs2)
+        for cv in f['cuviews']:
+            reqs2.append(['m_attr_values', f['secs'], cv])
+        f['alt_slot'] = len(reqs2)
+        m = 2 ** (8 * f['asz'])
+        for pre, tbl in a[4]:
+            reqs2.append(['enc_addr', f['le'], f['asz'], [(x * 7 + 0x1111) % m for x in tbl]])
+        files.append(f)
+    ans2 = drv.batch(reqs2)
+    reqs3 = []
+    for f in files:
+        mvals = ans2[f['attr_slot']:f['attr_slot'] + len(f['cuviews'])]
+        f['obs'] = []
+        for ci, cu in enumerate(f['cus']):
+            if cu['version'] < 5 or mvals[ci][0] != 'ok':
+                continue
+            for di_, d in enumerate(cu['meta']):
+                for ai, (name, form, raw, tgt) in enumerate(d):
+                    if tgt is None or tgt[0] not in ('list', 'sub'):
+                        continue
+                    op = 'm_get_rng' if name == 'DW_AT_ranges' else 'm_get_loc'
+                    f['obs'].append((ci, di_, name, tgt, len(reqs3)))
+                    reqs3.append([op, f['secs'], 5, mvals[ci][1][di_][ai], _cuinfo(f, ci)])
+    ans3 = drv.batch(reqs3)
+    for a, f in zip(cases, files):
+        le, asz = f['le'], f['asz']
+        alt = None
+        if a[4] and len(repr(a[:8])) % 3:      # two cases in three: the lists' file has an address table of its own
+            alt = b''.join(pre + enc for (pre, tbl), enc in zip(a[4], ans2[f['alt_slot']:f['alt_slot'] + len(a[4])]))
+        info, abbrev, cu_offs = B.build_info(le, [{'version': c['version'], 'is64': c['is64'], 'asz': c['asz'], 'dies': c['bdies']}
+                                                  for c in f['cus']])
+        sec = dict(loc=f['bytes']['loc'], ranges=f['bytes']['ranges'], loclists=f['bytes']['loclists'],
+                   rnglists=f['bytes']['rnglists'])
+        spec, model, impl = [], [], []
+
+        def setup():
+            unit_file = B.make_dwarfinfo(le, asz, dict(sec, info=info, abbrev=abbrev, addr=f['bytes']['addr']),
+                                         opener=_open, kinds=f['kinds'])
+            lists_file = B.make_dwarfinfo(le, asz, dict(sec, addr=alt), opener=_open, kinds=f['kinds'])
+            return list(unit_file.iter_CUs()), lists_file.location_lists(), lists_file.range_lists()
+        r = impl_call(setup)
+        for ci, di_, name, tgt, slot in f['obs']:
+            want = _designated(f, tgt)
+            n0 = len(spec)
+            if name == 'DW_AT_ranges':
+                spec += [['get_range_list_at_offset', _ok(want)], ['translate_v5_entry', _ok(want)]]
+                model += [['get_range_list_at_offset', ans3[slot]], ['translate_v5_entry', ans3[slot]]]
+            else:
+                spec.append(['parse_from_attribute', _ok(want)])
+                model.append(['parse_from_attribute', ans3[slot]])
+            if _is_err(r):
+                impl += [[lab, r] for lab, _ in spec[n0:]]
+                continue
+            cus, ll, rl = r
+
+            def die_attr():
+                it = cus[ci].iter_DIEs()
+                die = None
+                for _ in range(di_ + 1):
+                    die = next(it)
+                return die, die.attributes[name]
+            da = impl_call(die_attr)
+            if _is_err(da):
+                impl += [[lab, da] for lab, _ in spec[n0:]]
+            elif name == 'DW_AT_ranges':
+                impl.append(['get_range_list_at_offset', c_tups(impl_call(rl.get_range_list_at_offset, da[1].value, cus[ci]))])
+                impl.append(['translate_v5_entry', c_tups(impl_call(
+                    lambda: [rl.translate_v5_entry(e, cus[ci]) for e in rl.get_range_list_at_offset_ex(da[1].value)]))])
+            else:
+                impl.append(['parse_from_attribute',
+                             c_tups(impl_call(LocationParser(ll).parse_from_attribute, da[1], 5, da[0]))])
+        _drop()
+        key = 'split/ok'
+        for (lab, iv), (_, sv) in zip(impl, spec):
+            if iv != sv:
+                key = 'split/' + lab
+                break
+        ctx.bump('kind', 'split-' + ('other-table' if alt is not None else 'no-table'))
+        for k_ in f['kinds']:
+            ctx.bump('stream_kind', k_)
+        ctx.record('split', a, impl=impl, spec=spec, model=model, in_domain=f['wf'],
+                   nontrivial=bool(f['obs']), key=key)
 
 
 # ---- classification sweep
